@@ -58,8 +58,8 @@ namespace bxdecay0 {
     double tclev;
     double thlev;
     double thnuc;
-    particle * ipg1173 = nullptr;
-    particle * ipg1333 = nullptr;
+    int ipg1173 = -1;
+    int ipg1333 = -1;
     // Scheme of Co60 decay ("Table of Isotopes", 7th ed., 1978).
     // Four-figured labels correspond to energies of 60Ni excited
     // levels in keV.
@@ -105,7 +105,7 @@ namespace bxdecay0 {
     // DT_TRACER_MESSAGE(10001,"p2 = " << p);
     if (p <= cg) {
       decay0_gamma(prng_, event_, Egamma, tclev, thlev, tdlev);
-      ipg1173 = &event_.grab_last_particle();
+      ipg1173 = event_.get_particles().size() - 1;
     } else if (p <= cg + cK) {
       decay0_electron(prng_, event_, Egamma - EbindK, tclev, thlev, tdlev);
       decay0_gamma(prng_, event_, EbindK, 0., 0., tdlev);
@@ -148,7 +148,7 @@ namespace bxdecay0 {
     // DT_TRACER_MESSAGE(10001,"p4 = " << p);
     if (p <= cg) {
       decay0_gamma(prng_, event_, Egamma, tclev, thlev, tdlev);
-      ipg1333 = &event_.grab_last_particle();
+      ipg1333 = event_.get_particles().size() - 1;
     } else if (p <= cg + cK) {
       decay0_electron(prng_, event_, Egamma - EbindK, tclev, thlev, tdlev);
       decay0_gamma(prng_, event_, EbindK, 0., 0., tdlev);
@@ -156,9 +156,9 @@ namespace bxdecay0 {
       decay0_pair(prng_, event_, Egamma - 1.022, tclev, thlev, tdlev);
     }
     // Angular correlation between gammas 1173 and 1333 keV, L.Pandola + VIT
-    if (ipg1333 != nullptr && ipg1173 != nullptr) {
-      double p1333 = ipg1333->get_p();
-      double p1173 = ipg1173->get_p();
+    if (ipg1333 >= 0 && ipg1173 >= 0) {
+      double p1333 = event_.grab_particles()[ipg1333].get_p();
+      double p1173 = event_.grab_particles()[ipg1173].get_p();
       // DT_TRACER_MESSAGE(10001,"gammas 1173 and 1333 correlation");
       // Coefficients in formula 1+a2*ctet**2+a4*ctet**4 are from:
       // R.D.Evans, "The Atomic Nucleus", Krieger Publ. Comp., 1985, p. 240 (4(2)2(2)0 cascade).
@@ -188,8 +188,8 @@ namespace bxdecay0 {
       if (pcor * (1. + std::abs(a2) + std::abs(a4)) > 1. + a2 * gsl_pow_2(ctet) + a4 * gsl_pow_4(ctet)) {
         goto label_1;
       }
-      ipg1333->set_momentum(p1333 * stet1 * cos(phi1), p1333 * stet1 * sin(phi1), p1333 * ctet1);
-      ipg1173->set_momentum(p1173 * stet2 * cos(phi2), p1173 * stet2 * sin(phi2), p1173 * ctet2);
+      event_.grab_particles()[ipg1333].set_momentum(p1333 * stet1 * cos(phi1), p1333 * stet1 * sin(phi1), p1333 * ctet1);
+      event_.grab_particles()[ipg1173].set_momentum(p1173 * stet2 * cos(phi2), p1173 * stet2 * sin(phi2), p1173 * ctet2);
     }
     return;
   }
